@@ -25,7 +25,7 @@ def gen_script(rng, sw, spec, idx, tier, prop):
     pre = []
     nsrc = 0
     avoid_f_c01_1 = t == "hist" and (idx // len(FTYPES)) % 6 != 0  # avoid filter for known finding F-C01-1
-    avoid_model_rel = prop == "C10" and (idx // len(FTYPES)) % 4 != 0  # avoid filter for known finding F-C10-2
+    avoid_model_rel = False  # (finding F-C10-2 is fixed: no avoid filter)
     special = ["none", "model_first", "model_only", "all_disabled_but_one", "after_move", "container_with_sources", "none", "none"][(idx // len(FTYPES)) % 8]
     n_mut = sw.randint(1, 7 if tier == "quick" else 12)
     cost = spec["cost"]
@@ -276,8 +276,7 @@ class CostMachine(Machine):
                 got, p_eff, exp, tol), step=pi, expected=exp, actual=got, extra={"tags": self.tags(sim, got, p_eff)})
         log.add(["cost", pi], "ok", got)
         # sibling replays: total covariance / pointwise total / model read first
-        model_rel = any(s.enabled and s.relative and r == "model" for s, r in ref.sources)
-        # (with a model-relative source the per-axis/total matrices read *first* are the business of C02's finding F-C02-1, not of the cost value)
+        model_rel = ref.ftype == "hist" and any(s.enabled and s.relative and r == "model" for s, r in ref.sources)  # F-C01-1 is reported through the cost
         if ref.ftype != "unbinned" and ref.has_sources() and not model_rel and (pi + case["seed"]) % 2 == 0:
             sib = self.replay(case, world, res)
             if p is not None:
